@@ -22,8 +22,8 @@
 //! Recorded, outside the property's scope (counted under `observed(out-of-scope).*`): Pset::remove_input /
 //! remove_output count underflow after the public `global` field was replaced; TaprootBuilder::finalize on a
 //! builder that serde produced with `branch = [null]`; Transaction::all_fees overflow (DESIGN Appendix C).
-use crate::props::c01;
-use crate::{gen, hex, Out, Rng, R};
+use crate::props::{c01, c04};
+use crate::{gen, hex, Out, Rng, SeedableRng, R};
 use elements::confidential::{Asset, AssetBlindingFactor, Nonce, Value, ValueBlindingFactor};
 use elements::encode::{deserialize, deserialize_partial, serialize, Decodable};
 use elements::pset::{self, PartiallySignedTransaction as Pset};
@@ -2038,6 +2038,450 @@ fn misc_section(out: &mut Out, rng: &mut R) {
     }
 }
 
+// ------------------------------------------------------------------------------------------
+// boundary scalars in PSET blinding, blinding-factor arithmetic, rare nonce encodings
+// ------------------------------------------------------------------------------------------
+
+const N_ORDER: [u8; 32] = [
+    0xFF, 0xFF, 0xFF, 0xFF, 0xFF, 0xFF, 0xFF, 0xFF, 0xFF, 0xFF, 0xFF, 0xFF, 0xFF, 0xFF, 0xFF, 0xFE, 0xBA, 0xAE, 0xDC, 0xE6, 0xAF, 0x48, 0xA0, 0x3B, 0xBF, 0xD2, 0x5E, 0x8C, 0xD0, 0x36, 0x41, 0x41,
+];
+/// big-endian 256-bit helpers, independent of libsecp: (a + b) mod n and (−a) mod n for a, b < n
+fn be_add(a: &[u8; 32], b: &[u8; 32]) -> ([u8; 32], bool) {
+    let mut r = [0u8; 32];
+    let mut c = 0u16;
+    for i in (0..32).rev() {
+        let s = a[i] as u16 + b[i] as u16 + c;
+        r[i] = s as u8;
+        c = s >> 8;
+    }
+    (r, c != 0)
+}
+fn be_sub(a: &[u8; 32], b: &[u8; 32]) -> [u8; 32] {
+    let mut r = [0u8; 32];
+    let mut brw = 0i16;
+    for i in (0..32).rev() {
+        let mut d = a[i] as i16 - b[i] as i16 - brw;
+        if d < 0 { d += 256; brw = 1; } else { brw = 0; }
+        r[i] = d as u8;
+    }
+    r
+}
+fn add_mod_n(a: &[u8; 32], b: &[u8; 32]) -> [u8; 32] {
+    let (s, carry) = be_add(a, b);
+    if carry || s >= N_ORDER { be_sub(&s, &N_ORDER) } else { s }
+}
+fn neg_mod_n(a: &[u8; 32]) -> [u8; 32] {
+    if *a == [0u8; 32] { *a } else { be_sub(&N_ORDER, a) }
+}
+fn tw32(t: &Tweak) -> [u8; 32] {
+    let mut a = [0u8; 32];
+    a.copy_from_slice(t.as_ref());
+    a
+}
+fn tweak_of(a: &[u8; 32]) -> Tweak {
+    Tweak::from_slice(a).expect("scalar below the group order")
+}
+fn twh(t: &Tweak) -> String {
+    c04::bf_hex(t.as_ref())
+}
+fn small(k: u8) -> [u8; 32] {
+    let mut a = [0u8; 32];
+    a[31] = k;
+    a
+}
+/// the boundary scalars: 0, 1, 2, n−1, n−2, (n−1)/2, (n+1)/2, 2^255, a random x and −x
+fn boundary_scalars(rng: &mut R) -> Vec<(&'static str, [u8; 32])> {
+    let nm1 = be_sub(&N_ORDER, &small(1));
+    let mut half = [0u8; 32]; // (n-1)/2
+    let mut c = 0u8;
+    for i in 0..32 { let v = nm1[i]; half[i] = (v >> 1) | (c << 7); c = v & 1; }
+    let mut top = [0u8; 32];
+    top[0] = 0x80;
+    let x = tw32(&gen::tweak(rng));
+    vec![("0", [0u8; 32]), ("1", small(1)), ("2", small(2)), ("n-1", nm1), ("n-2", be_sub(&N_ORDER, &small(2))), ("(n-1)/2", half), ("(n+1)/2", add_mod_n(&half, &small(1))), ("2^255", top), ("x", x), ("-x", neg_mod_n(&x))]
+}
+
+/// `ValueBlindingFactor` `+=` / unary `-` on every pair of boundary scalars (all four zero/non-zero
+/// combinations, x + (−x), (n−1) + 1, …) against an independent 256-bit oracle, and as the
+/// `psetblind.addneg` correspondence op; `ValueBlindingFactor::last` with zero operands on either side
+fn scalar_arith_section(out: &mut Out, rng: &mut R) {
+    let rounds = if out.tier_thorough { 12 } else { 1 };
+    for _ in 0..rounds {
+        let bs = boundary_scalars(rng);
+        for (na, a) in &bs {
+            // negation
+            let ta = tweak_of(a);
+            let src: Vec<u8> = a.to_vec();
+            let neg = pv(out, "ValueBlindingFactor.neg", &src, || -ValueBlindingFactor::from_slice(a).unwrap());
+            out.s("vbf_neg_is_minus_mod_n", neg.map(|v| tw32(&v.into_inner())) == Some(neg_mod_n(a)), || format!("a={}", twh(&ta)));
+            for (nb, b) in &bs {
+                out.count(&format!("vbf.add.shape.{}+{}", if *a == [0u8; 32] { "zero" } else { "nonzero" }, if *b == [0u8; 32] { "zero" } else { "nonzero" }));
+                let tb = tweak_of(b);
+                let mut src = a.to_vec();
+                src.extend_from_slice(b);
+                let sum = pv(out, "ValueBlindingFactor.add_assign", &src, || { let mut x = ValueBlindingFactor::from_slice(a).unwrap(); x += ValueBlindingFactor::from_slice(b).unwrap(); x });
+                out.s("vbf_add_is_plus_mod_n", sum.map(|v| tw32(&v.into_inner())) == Some(add_mod_n(a, b)), || format!("{} + {}: a={} b={}", na, nb, twh(&ta), twh(&tb)));
+                let k = match (sum, neg) { (Some(x), Some(n)) => format!("ok {} {}", twh(&x.into_inner()), twh(&n.into_inner())), _ => "panic".to_string() };
+                out.k(format!("psetblind.addneg {} {}", twh(&ta), twh(&tb)), k);
+            }
+        }
+        // x += -x, x += x, chains that return to zero
+        for (_, a) in &bs {
+            let src = a.to_vec();
+            let r = pv(out, "ValueBlindingFactor.add_assign", &src, || { let x = ValueBlindingFactor::from_slice(a).unwrap(); let mut y = x; y += -x; y += x; y += -x; y });
+            out.s("vbf_x_plus_minus_x_is_zero", r == Some(ValueBlindingFactor::zero()), || c04::bf_hex(a));
+        }
+        // last(): zero / boundary operands on every side
+        let vals = [0u64, 1, u64::MAX, 1 << 63, 5_000];
+        for (_, abf) in bs.iter().take(6) {
+            for shape in 0..6 {
+                let v = vals[rng.gen_range(0..vals.len())];
+                let mk = |rng: &mut R, zero_a: bool, zero_v: bool, val: u64| {
+                    let bsx = boundary_scalars(rng);
+                    let a = if zero_a { [0u8; 32] } else { bsx[rng.gen_range(1..bsx.len())].1 };
+                    let b = if zero_v { [0u8; 32] } else { bsx[rng.gen_range(1..bsx.len())].1 };
+                    (val, AssetBlindingFactor::from_slice(&a).unwrap(), ValueBlindingFactor::from_slice(&b).unwrap())
+                };
+                let (ins, outs): (Vec<_>, Vec<_>) = match shape {
+                    0 => (vec![], vec![]),
+                    1 => (vec![mk(rng, true, true, 0)], vec![mk(rng, true, true, 0)]),
+                    2 => (vec![mk(rng, true, false, 7)], vec![mk(rng, false, true, 7)]),
+                    3 => { let vv = vals[rng.gen_range(0..5)]; let e = mk(rng, false, false, vv); (vec![e], vec![e]) }    // equal operands: the difference is zero
+                    4 => (vec![mk(rng, false, false, u64::MAX), mk(rng, false, false, u64::MAX)], vec![]),
+                    _ => {
+                        let mut rnd = |rng: &mut R| { let (za, zv, vv) = (rng.gen_bool(0.5), rng.gen_bool(0.5), gen::u64_edge(rng)); mk(rng, za, zv, vv) };
+                        ((0..3).map(|_| rnd(rng)).collect(), (0..3).map(|_| rnd(rng)).collect())
+                    }
+                };
+                out.count(&format!("vbf.last.shape{}", shape));
+                let abf_v = AssetBlindingFactor::from_slice(abf).unwrap();
+                let f = |l: &Vec<(u64, AssetBlindingFactor, ValueBlindingFactor)>| c04::join(&l.iter().map(|(v, a, b)| format!("0:{}:{}:{}", v, c04::abf_hex(a), c04::vbf_hex(b))).collect::<Vec<_>>());
+                let r = pv(out, "ValueBlindingFactor.last", abf, || ValueBlindingFactor::last(SECP256K1, v, abf_v, &ins, &outs));
+                out.k(format!("psetblind.last {} {} {} {}", v, c04::abf_hex(&abf_v), f(&ins), f(&outs)), match r { Some(x) => format!("ok {}", c04::vbf_hex(&x)), None => "panic".into() });
+            }
+        }
+    }
+}
+
+struct Amap(Vec<AssetId>);
+impl Amap {
+    fn idx(&mut self, a: AssetId) -> usize {
+        match self.0.iter().position(|x| *x == a) { Some(i) => i, None => { self.0.push(a); self.0.len() - 1 } }
+    }
+}
+fn opts<T: ToString>(o: Option<T>) -> String { o.map(|x| x.to_string()).unwrap_or_else(|| "n".into()) }
+fn b01(b: bool) -> char { if b { '1' } else { '0' } }
+fn step_flags(o: &pset::Output) -> String {
+    [o.amount_comm.is_some(), o.asset_comm.is_some(), o.ecdh_pubkey.is_some(), o.value_rangeproof.is_some(), o.asset_surjection_proof.is_some(), o.blind_value_proof.is_some(), o.blind_asset_proof.is_some()].iter().map(|b| b01(*b)).collect()
+}
+fn scalars_s(p: &Pset) -> String { c04::join(&p.global.scalars.iter().map(twh).collect::<Vec<_>>()) }
+
+/// one real `blind_last` / `blind_non_last` call as the `psetblind.step` correspondence op of the C09
+/// model (state rendered exactly as harness/src/props/c09.rs does), plus the C10 no-panic verdict
+fn pset_step(out: &mut Out, api: &str, shape: &str, last: bool, p: &mut Pset, sup: &HashMap<usize, TxOutSecrets>, prng: &mut R) -> bool {
+    let mut am = Amap(vec![]);
+    let ins: Vec<String> = p.inputs().iter().map(|i| {
+        let mut s = format!("{}{}{}", b01(i.witness_utxo.is_some()), b01(i.has_issuance()), opts(i.blinded_issuance));
+        let (a, t) = i.issuance_ids();
+        if i.issuance_value_amount.is_some() || i.issuance_value_comm.is_some() { s.push_str(&format!("+{}", am.idx(a))); }
+        if i.issuance_inflation_keys.is_some() || i.issuance_inflation_keys_comm.is_some() { s.push_str(&format!("+{}", am.idx(t))); }
+        s
+    }).collect();
+    let outs: Vec<String> = p.outputs().iter().map(|o| format!("{}:{}:{}:{}:{}:{}", opts(o.amount), opts(o.asset.map(|a| am.idx(a))), b01(o.blinding_key.is_some()), opts(o.blinder_index),
+        b01(Address::from_script(&o.script_pubkey, None, &AddressParams::ELEMENTS).is_some()), step_flags(o))).collect();
+    let pre_sc = scalars_s(p);
+    let mut supv: Vec<(&usize, &TxOutSecrets)> = sup.iter().collect();
+    supv.sort_by_key(|e| *e.0);
+    let sup_s: Vec<String> = supv.iter().map(|(i, s)| format!("{}:{}:{}:{}:{}", i, am.idx(s.asset), s.value, c04::abf_hex(&s.asset_bf), c04::vbf_hex(&s.value_bf))).collect();
+    let src = catch_unwind(AssertUnwindSafe(|| serialize(&*p))).unwrap_or_default();
+    let r = probe(out, api, &src, &pset_lim(), || { let r = if last { p.blind_last(prng, SECP256K1, sup) } else { p.blind_non_last(prng, SECP256K1, sup) }; (r.is_ok(), r) });
+    let (rands, result) = match &r {
+        None => { out.count(&format!("{}.{}.panic", api, shape)); ("-".to_string(), "panic".to_string()) }
+        Some(Err(e)) => {
+            use elements::pset::PsetBlindError as E;
+            use elements::ConfidentialTxOutError as C;
+            let t = match e {
+                E::BlindingIssuanceUnsupported(_) => "Issuance", E::BlinderIndexOutOfBounds(..) => "Index", E::AtleastOneOutputBlind => "NoOutput", E::MissingWitnessUtxo(_) => "Utxo",
+                E::MustHaveExplicitTxOut(_) => "Explicit", E::ConfidentialTxOutError(_, C::ExpectedExplicitValue) => "ExplValue", E::ConfidentialTxOutError(_, C::ExpectedExplicitAsset) => "ExplAsset",
+                E::ConfidentialTxOutError(_, C::InvalidAddress) => "Address", E::ConfidentialTxOutError(..) => "Proof", E::BlindingProofsCreationError(..) => "Proof", _ => "Other",
+            };
+            out.count(&format!("{}.{}.err.{}", api, shape, t));
+            ("-".to_string(), format!("err {}", t))
+        }
+        Some(Ok(ret)) => {
+            out.count(&format!("{}.{}.ok", api, shape));
+            let n = ret.len();
+            let rands: Vec<String> = ret.iter().enumerate().map(|(j, (loc, (abf, vbf, _)))| {
+                let v = if last && j + 1 == n { "0".repeat(64) } else { c04::vbf_hex(vbf) };
+                format!("{}:{}:{}", loc.input_index, c04::abf_hex(abf), v)
+            }).collect();
+            let sel: Vec<String> = ret.keys().map(|l| l.input_index.to_string()).collect();
+            let sv = if last { ret.values().last().map(|(_, v, _)| c04::vbf_hex(v)).unwrap_or_else(|| "-".into()) }
+                     else if ret.is_empty() { "-".into() } else { p.global.scalars.last().map(twh).unwrap_or_else(|| "-".into()) };
+            let flags: Vec<String> = p.outputs().iter().map(step_flags).collect();
+            let bidx: Vec<String> = p.outputs().iter().map(|o| opts(o.blinder_index)).collect();
+            (c04::join(&rands), format!("ok sel={} s={} scalars={} flags={} bidx={}", c04::join(&sel), sv, scalars_s(p), flags.join(","), bidx.join(",")))
+        }
+    };
+    // the C09 model takes proof creation to succeed whatever the blinding factor is; libsecp refuses to
+    // sign a range proof with blinding factor 0 (an `Err`, which is fine for C10): no K line for the
+    // shapes built to make the final factor 0
+    if !shape.contains("final factor 0") {
+        out.k(format!("psetblind.step {} {} {} {} {} {}", if last { "l" } else { "n" }, c04::join(&ins), c04::join(&outs), pre_sc, c04::join(&sup_s), rands), result);
+    }
+    matches!(r, Some(Ok(_)))
+}
+
+/// a consistent blindable PSET: `nin` explicit inputs of one asset with witness utxos, `nout` outputs
+/// with blinding keys and in-range blinder indices, a fee output, amounts balanced; and the matching
+/// secrets of every input (non-zero or zero blinding factors)
+fn clean_pset(rng: &mut R, asset: AssetId, nin: usize, nout: usize, zero_in_bfs: bool) -> (Pset, HashMap<usize, TxOutSecrets>) {
+    let mut p = Pset::new_v2();
+    let per_out = 1000u64;
+    let total = per_out * nout as u64 + 9;
+    let mut m = HashMap::new();
+    for k in 0..nin {
+        let v = if k == 0 { total - (nin as u64 - 1) } else { 1 };
+        let mut i = pset::Input::from_prevout(OutPoint::new(Txid::from_byte_array(gen::arr32(rng)), k as u32));
+        let sec = if zero_in_bfs { TxOutSecrets::new(asset, AssetBlindingFactor::zero(), v, ValueBlindingFactor::zero()) }
+                  else { TxOutSecrets::new(asset, AssetBlindingFactor::from_slice(gen::tweak(rng).as_ref()).unwrap(), v, ValueBlindingFactor::from_slice(gen::tweak(rng).as_ref()).unwrap()) };
+        let mut spk = addr_script(rng);
+        while Address::from_script(&spk, None, &AddressParams::ELEMENTS).is_none() { spk = addr_script(rng); }
+        i.witness_utxo = Some(if zero_in_bfs {
+            TxOut { asset: Asset::Explicit(asset), value: Value::Explicit(v), nonce: Nonce::Null, script_pubkey: spk, witness: TxOutWitness::empty() }
+        } else {
+            let (g, _, _) = sec.surjection_inputs(SECP256K1);
+            TxOut { asset: Asset::Confidential(g), value: Value::Confidential(zkp::PedersenCommitment::new(SECP256K1, v, sec.value_bf.into_inner(), g)), nonce: Nonce::Null, script_pubkey: spk, witness: TxOutWitness::empty() }
+        });
+        p.add_input(i);
+        m.insert(k, sec);
+    }
+    for _ in 0..nout {
+        let mut spk = addr_script(rng);
+        while Address::from_script(&spk, None, &AddressParams::ELEMENTS).is_none() { spk = addr_script(rng); }
+        let mut o = pset::Output::new_explicit(spk, per_out, asset, Some(elements::bitcoin::PublicKey::new(gen::pubkey(rng))));
+        o.blinder_index = Some(rng.gen_range(0..nin as u32));
+        p.add_output(o);
+    }
+    p.add_output(pset::Output::new_explicit(Script::new(), 9, asset, None));
+    (p, m)
+}
+
+/// `blind_last` / `blind_non_last` on consistent PSETs whose `global.scalars` holds boundary scalars
+fn pset_scalar_section(out: &mut Out, rng: &mut R) {
+    let rounds = if out.tier_thorough { 10 } else { 1 };
+    let asset = gen::asset_id(rng);
+    for round in 0..rounds {
+        let nin = 1 + round % 2;
+        let nout = 1 + (round / 2) % 3;
+        let zero_in = round % 3 == 2;
+        let (base, sup) = clean_pset(rng, asset, nin, nout, zero_in);
+        let seed: u64 = rng.gen();
+        // dry run with no scalars: the balancing factor f0 the last blinder computes with this rng
+        let f0: Option<[u8; 32]> = {
+            let mut q = base.clone();
+            let mut pr_ = R::seed_from_u64(seed);
+            match catch_unwind(AssertUnwindSafe(|| q.blind_last(&mut pr_, SECP256K1, &sup))) {
+                Ok(Ok(ret)) => ret.values().last().map(|(_, v, _)| tw32(&v.into_inner())),
+                _ => None,
+            }
+        };
+        out.count(if f0.is_some() { "pset.scalars.dry_run.ok" } else { "pset.scalars.dry_run.failed" });
+        let bs = boundary_scalars(rng);
+        let x = bs[8].1;
+        let y = tw32(&gen::tweak(rng));
+        let nm1 = bs[3].1;
+        let mut shapes: Vec<(&'static str, Vec<[u8; 32]>)> = vec![
+            ("none", vec![]),
+            ("[0]", vec![[0u8; 32]]),
+            ("[1]", vec![small(1)]),
+            ("[n-1]", vec![nm1]),
+            ("[0,0]", vec![[0u8; 32], [0u8; 32]]),
+            ("[x,x]", vec![x, x]),
+            ("[n-1,n-1]", vec![nm1, nm1]),
+            ("[x,-x]", vec![x, neg_mod_n(&x)]),
+            ("[n-1,1]", vec![nm1, small(1)]),
+            ("[0,n-1,1]", vec![[0u8; 32], nm1, small(1)]),
+            ("[0,x]", vec![[0u8; 32], x]),
+            ("[x,0]", vec![x, [0u8; 32]]),
+            ("[x,y,-(x+y)]", vec![x, y, neg_mod_n(&add_mod_n(&x, &y))]),
+            ("[(n-1)/2,(n+1)/2]", vec![bs[5].1, bs[6].1]),
+            ("[2^255,2^255]", vec![bs[7].1, bs[7].1]),
+        ];
+        {
+            // many scalars that sum to zero mod n
+            let mut v: Vec<[u8; 32]> = (0..19).map(|_| tw32(&gen::tweak(rng))).collect();
+            let mut acc = [0u8; 32];
+            for t in &v { acc = add_mod_n(&acc, t); }
+            v.push(neg_mod_n(&acc));
+            shapes.push(("20 summing to 0", v));
+        }
+        if let Some(f) = f0 {
+            // the scalars cancel the computed factor: the last output is committed with blinding factor 0
+            shapes.push(("[-f0] (final factor 0)", vec![neg_mod_n(&f)]));
+            shapes.push(("[a,-f0-a] (final factor 0)", vec![y, neg_mod_n(&add_mod_n(&f, &y))]));
+            shapes.push(("[-f0+1] (final factor 1)", vec![add_mod_n(&neg_mod_n(&f), &small(1))]));
+            shapes.push(("[-f0-1] (final factor n-1)", vec![add_mod_n(&neg_mod_n(&f), &nm1)]));
+        }
+        for (name, sc) in &shapes {
+            let scal: Vec<Tweak> = sc.iter().map(tweak_of).collect();
+            for via_wire in [false, true] {
+                let mut p = base.clone();
+                p.global.scalars = scal.clone();
+                if via_wire {
+                    // the decoder accepts the all-zero scalar; it refuses duplicate scalars (map keys)
+                    let b = serialize(&p);
+                    match dec_pset(out, &b) {
+                        Some(q) => { out.count(&format!("pset.scalars.{}.decoded", name)); p = q; }
+                        None => { out.count(&format!("pset.scalars.{}.decoder_refused", name)); continue; }
+                    }
+                }
+                let tag = format!("{}{}", name, if via_wire { " via wire" } else { "" });
+                let mut a = p.clone();
+                let ok = pset_step(out, "Pset.blind_last(boundary scalars)", &tag, true, &mut a, &sup, &mut R::seed_from_u64(seed));
+                if ok {
+                    // a successful last step clears the scalars and leaves a decodable, extractable PSET
+                    out.s("pset.blind_last.clears_scalars", a.global.scalars.is_empty(), || format!("shape {}", tag));
+                    let b2 = serialize(&a);
+                    pset_accessors(out, &a, &b2);
+                    dec_pset(out, &b2);
+                }
+                let mut a = p.clone();
+                let okn = pset_step(out, "Pset.blind_non_last(boundary scalars)", &tag, false, &mut a, &sup, &mut R::seed_from_u64(seed ^ 1));
+                if okn && !via_wire {
+                    // a second party: the non-last blinder's own scalar joins the boundary scalars, then the last step
+                    let mut c = a.clone();
+                    for o in c.outputs_mut() { if o.blinding_key.is_some() && o.amount_comm.is_none() { o.blinder_index = Some(0); } }
+                    pset_step(out, "Pset.blind_last(boundary scalars)", &format!("{} after non_last", name), true, &mut c, &sup, &mut R::seed_from_u64(seed ^ 2));
+                }
+            }
+        }
+    }
+}
+
+/// nonce kinds of one output: Null, Explicit([u8;32]) (prefix 0x01), Confidential(pubkey)
+fn nonce_of(rng: &mut R, k: u8) -> Nonce {
+    match k { 0 => Nonce::Null, 1 => Nonce::Explicit(if rng.gen_bool(0.3) { gen::pubkey(rng).serialize()[1..].try_into().unwrap() } else { gen::arr32(rng) }), _ => Nonce::Confidential(gen::pubkey(rng)) }
+}
+fn nonce_ch(k: u8) -> char { ['n', 'e', 'c'][k as usize] }
+
+/// `Transaction::blind` and the per-output blinding entry points on every placement of the three nonce
+/// encodings (non-fee outputs, fee outputs, next to a real blinding key, alone), in memory and decoded
+fn nonce_shape_section(out: &mut Out, rng: &mut R) {
+    let asset = gen::asset_id(rng);
+    let reps = if out.tier_thorough { 4 } else { 1 };
+    let mut patterns: Vec<Vec<u8>> = vec![];
+    for n in 1..=3usize {
+        for code in 0..3usize.pow(n as u32) {
+            patterns.push((0..n).map(|j| ((code / 3usize.pow(j as u32)) % 3) as u8).collect());
+        }
+    }
+    for rep in 0..reps {
+        for pat in &patterns {
+            // quick: all patterns of 1 and 2 outputs, every third pattern of 3 outputs
+            if !out.tier_thorough && pat.len() == 3 && (pat[0] as usize + 3 * pat[1] as usize + 9 * pat[2] as usize + rep) % 3 != 0 { continue; }
+            for fee_nonce in 0..4u8 {       // 3 = no fee output at all
+                let nin = 1 + (pat.len() + fee_nonce as usize) % 2;
+                let per_out = 1000u64;
+                let fee = 7u64;
+                let total = per_out * pat.len() as u64 + if fee_nonce < 3 { fee } else { 0 };
+                let spent: Vec<TxOutSecrets> = (0..nin).map(|k| TxOutSecrets::new(asset, AssetBlindingFactor::from_slice(gen::tweak(rng).as_ref()).unwrap(), if k == 0 { total - (nin as u64 - 1) } else { 1 }, ValueBlindingFactor::from_slice(gen::tweak(rng).as_ref()).unwrap())).collect();
+                let mut t = Transaction { version: 2, lock_time: LockTime::ZERO, input: (0..nin).map(|_| gen::txin(rng, gen::InKind::Plain, false)).collect(), output: vec![] };
+                for &k in pat {
+                    let mut spk = addr_script(rng);
+                    while Address::from_script(&spk, None, &AddressParams::ELEMENTS).is_none() { spk = addr_script(rng); }
+                    t.output.push(TxOut { asset: Asset::Explicit(asset), value: Value::Explicit(per_out), nonce: nonce_of(rng, k), script_pubkey: spk, witness: TxOutWitness::empty() });
+                }
+                if fee_nonce < 3 {
+                    let mut f = TxOut::new_fee(fee, asset);
+                    f.nonce = nonce_of(rng, fee_nonce);
+                    // the fee output anywhere, not only last
+                    let pos = rng.gen_range(0..=t.output.len());
+                    t.output.insert(pos, f);
+                }
+                let shape: String = format!("outs={} fee={}", pat.iter().map(|k| nonce_ch(*k)).collect::<String>(), if fee_nonce < 3 { nonce_ch(fee_nonce).to_string() } else { "-".into() });
+                for decoded in [false, true] {
+                    let b = serialize(&t);
+                    let tx = if decoded {
+                        match dec::<Transaction>(out, "Transaction", &b) {
+                            Some(d) => { out.s("explicit_nonce_tx_roundtrips", d == t, || hex(&b)); d }
+                            None => { out.s("explicit_nonce_tx_roundtrips", false, || hex(&b)); continue; }
+                        }
+                    } else { t.clone() };
+                    // K (`blind.select` of the C04 model: which outputs get blinded, or which error) + verdict
+                    let oc = c04::run_blind(rng, out, SECP256K1, &tx, &spent);
+                    let tag = match &oc.res { Ok(v) => format!("ok{}", v.len()), Err(e) => e.replace(' ', "_") };
+                    out.count(&format!("nonce.blind.{}.{}{}", shape, tag, if decoded { ".decoded" } else { "" }));
+                    out.s("no_panic.Transaction.blind(nonce encodings)", oc.res != Err("panic".to_string()), || format!("shape {} tx {}", shape, hex(&b)));
+                    // exactly the non-fee outputs with a confidential nonce are blinded; explicit nonces are left alone
+                    if let Ok(items) = &oc.res {
+                        let want: Vec<usize> = tx.output.iter().enumerate().filter(|(_, o)| !o.is_fee() && o.nonce.is_confidential()).map(|(i, _)| i).collect();
+                        let got: Vec<usize> = items.iter().map(|x| x.0).collect();
+                        out.s("blind_selects_confidential_nonces_only", got == want, || format!("shape {} want {:?} got {:?} tx {}", shape, want, got, hex(&b)));
+                        let untouched = tx.output.iter().zip(oc.tx.output.iter()).enumerate().all(|(i, (a, b2))| want.contains(&i) || a == b2);
+                        out.s("blind_leaves_other_outputs_untouched", untouched, || format!("shape {} tx {}", shape, hex(&b)));
+                        tx_accessors(out, &oc.tx, &b);
+                    } else if oc.res == Err("err TooFewBlindingOutputs".to_string()) {
+                        let none_marked = !tx.output.iter().any(|o| !o.is_fee() && o.nonce.is_confidential());
+                        out.s("too_few_iff_no_marked_output", none_marked, || format!("shape {} tx {}", shape, hex(&b)));
+                    }
+                    // with issuance blinding requested as well (no issuance present)
+                    if !decoded {
+                        let mut t2 = tx.clone();
+                        pr(out, "Transaction.blind(nonce encodings, blind_issuances)", &b, || t2.blind(rng, SECP256K1, &spent, true).map(|m| m.len()));
+                    }
+                }
+                // per-output entry points on each output of this transaction
+                if rep == 0 {
+                    for o in &t.output {
+                        let ob = serialize(o);
+                        let bk = gen::pubkey(rng);
+                        let kind = match o.nonce { Nonce::Null => "null", Nonce::Explicit(_) => "explicit", Nonce::Confidential(_) => "confidential" };
+                        let r = pr(out, "TxOut.to_non_last_confidential", &ob, || o.to_non_last_confidential(rng, SECP256K1, bk, &spent));
+                        out.count(&format!("nonce.to_non_last.{}.{}.{}", kind, if o.is_fee() { "fee" } else { "nonfee" }, match &r { Some(Ok(_)) => "ok", Some(Err(_)) => "err", None => "panic" }));
+                        if let Some(Ok((c, _, _, _))) = r {
+                            // the result carries the sender's ephemeral key, whatever the nonce was before
+                            out.s("to_non_last_sets_confidential_nonce", c.nonce.is_confidential(), || hex(&ob));
+                            let cb = serialize(&c);
+                            let sk = gen::seckey(rng);
+                            pr(out, "TxOut.unblind", &cb, || c.unblind(SECP256K1, sk));
+                            // the blinded output with its nonce replaced by each encoding: unblinding reports, never panics
+                            for k in 0..3u8 {
+                                let mut c2 = c.clone();
+                                c2.nonce = nonce_of(rng, k);
+                                let cb2 = serialize(&c2);
+                                let r = pr(out, "TxOut.unblind(nonce encodings)", &cb2, || c2.unblind(SECP256K1, sk));
+                                out.count(&format!("nonce.unblind.{}.{}", nonce_ch(k), match r { Some(Ok(_)) => "ok", Some(Err(_)) => "err", None => "panic" }));
+                            }
+                        }
+                        pv(out, "Nonce.accessors", &ob, || (o.nonce.commitment().is_some(), o.nonce.explicit().is_some(), o.nonce.is_null(), o.nonce.is_explicit(), o.nonce.is_confidential()));
+                        let sk = gen::seckey(rng);
+                        po(out, "Nonce.shared_secret", &ob, || o.nonce.shared_secret(&sk));
+                        pv(out, "pset.Output.from_txout/to_txout", &ob, || pset::Output::from_txout(o.clone()).to_txout().is_fee());
+                    }
+                    // the same transaction as a PSET
+                    let p = Pset::from_tx(t.clone());
+                    let pb = serialize(&p);
+                    pset_accessors(out, &p, &pb);
+                    dec_pset(out, &pb);
+                }
+            }
+        }
+    }
+    // the nonce decoder on the three prefixes and their neighbours
+    for pre in [0u8, 1, 2, 3, 4, 0xff] {
+        for l in [0usize, 1, 31, 32, 33] {
+            let mut b = vec![pre];
+            b.extend(gen::bytes(rng, l));
+            dec::<Nonce>(out, "Nonce", &b);
+            let mut g = vec![pre];
+            g.extend_from_slice(&gen::pubkey(rng).serialize()[1..]);
+            g.truncate(1 + l);
+            dec::<Nonce>(out, "Nonce", &g);
+        }
+    }
+}
+
 /// other documented panics, called on both sides of their documented condition
 fn documented_section(out: &mut Out, rng: &mut R) {
     use elements::bitcoin::PublicKey as BPk;
@@ -2262,7 +2706,10 @@ fn run_inner(rng: &mut R, out: &mut Out) {
     documented_section(out, rng); lap("documented");
     slice_length_section(out, rng);
     short_commitment_in_pset(out, rng);
-    misc_section(out, rng);
+    misc_section(out, rng); lap("misc");
+    scalar_arith_section(out, rng); lap("scalars");
+    pset_scalar_section(out, rng); lap("psetscal");
+    nonce_shape_section(out, rng); lap("nonces");
     // in-memory transactions straight from the generators (not only decoded ones)
     let scale = if out.tier_thorough { 100 } else { 4 };
     for _ in 0..40 * scale {
